@@ -120,7 +120,7 @@ func c11Check(sc ConcScenario) func(res *ConcResult, races []RaceReport) (string
 func c11(env *Env, rep *Report) {
 	scs := c11Scenarios()
 	rep.Rule = fmt.Sprintf("%d scenarios = transports {ws, legacy} x end points {transport open, after handshake, tunnel-create, tunnel-auth, channel-create, with client data / host data / both in flight} x causes {CLOSE_CHANNEL, out-of-order packet, unframeable bytes, client drops the websocket / both legacy connections / only IN / only OUT}; "+
-		"every schedule of client, real handler(s), relay goroutine and backend up to the preemption bound; oracle at quiescence (no thread can move): backend connection closed by the gateway, every hijacked client connection closed by the gateway, no gateway goroutine left, registry empty, gauges restored. distinct_nontrivial = distinct per-schedule observations.", len(scs))
+		"every schedule of client, real handler(s), relay goroutine and backend up to the preemption bound; oracle at quiescence (no thread can move): backend connection closed by the gateway, every hijacked client connection closed by the gateway, no gateway goroutine left, registry empty, gauges restored. Plus, on the real binary after a real OpenID login: the process's descriptor count after nine tunnels (ended by close, drop, protocol error) is back at the level after two warm-up tunnels. distinct_nontrivial = distinct per-schedule observations.", len(scs))
 	rep.Assumptions = append(rep.Assumptions,
 		"'within a bounded time' is evaluated at quiescence: the state in which no thread of the closed system can take a step; the gateway sets no timers on tunnel connections, so nothing further can happen after it",
 		"connections are unbounded in-memory pipes (no write ever blocks)")
@@ -137,6 +137,9 @@ func c11(env *Env, rep *Report) {
 			}
 		}
 		return
+	}
+	if gwBin() != "" && env.Shard == 0 && env.Part == "" {
+		bindLeaks(rep, "C11")
 	}
 	for i, sc := range scs {
 		if env.Part != "" && !strings.Contains(sc.Name, env.Part) {
